@@ -89,6 +89,22 @@ theorem C30_int_literal_out_of_range (n : Nat) :
   simp only [digitsVal_toDigits]
   constructor <;> intro h <;> split <;> simp <;> omega
 
+/-- **Literals in pattern position.** An integer literal pattern denotes exactly what the same
+    spelling denotes as an expression: its decimal value when it fits `i64`, the "Out of range?"
+    diagnostic otherwise (never a wrapped value, so an out-of-range pattern cannot silently match). -/
+theorem C30_int_pattern_literal (n : Nat) :
+    intPattern (Nat.toDigits 10 n) = intLiteral false (Nat.toDigits 10 n) ∧
+    (n ≤ I64_MAX → intPattern (Nat.toDigits 10 n) = some (n : Int)) ∧
+    (I64_MAX < n → intPattern (Nat.toDigits 10 n) = none) := by
+  refine ⟨rfl, ?_, (C30_int_literal_out_of_range n).1⟩
+  intro h
+  unfold intPattern intLiteral
+  have hne : (Nat.toDigits 10 n).isEmpty = false := by
+    cases h' : Nat.toDigits 10 n with
+    | nil => exact absurd h' Nat.toDigits_ne_nil
+    | cons _ _ => rfl
+  simp [hne, digitsVal_toDigits, h]
+
 /-- Floats: the token's payload is the spelling with the `_` removed, consumed completely. -/
 theorem C30_float_literal_token (ip fp rest : List Char) (hi : NumSpelling (ip.filter isDigit) ip)
     (hf : fp.all isNumChar = true) (hr : ∀ c r, rest = c :: r → isNumChar c = false) :
